@@ -21,6 +21,7 @@ Z(i)     == [op |-> "z", i |-> i]
 P(i)     == [op |-> "p", i |-> i]
 V(i)     == [op |-> "v", i |-> i]
 QS(i)    == [op |-> "q", i |-> i]
+DX(i)    == [op |-> "dx", i |-> i]      \* inf_der(x_i): only inside grid='inf' constraints
 Tm       == [op |-> "t"]
 TT       == [op |-> "T"]
 T0       == [op |-> "t0"]
@@ -41,7 +42,7 @@ IntQ(i)     == [op |-> "int", i |-> i]
 Off(a, o)   == [op |-> "off", a |-> a, o |-> o]
 Plus3(a, b, c) == Plus(Plus(a, b), c)
 
-IsLeafOp(o) == o \in {"c", "x", "u", "z", "p", "v", "q", "t", "T", "t0", "tf", "DT", "DTc", "int"}
+IsLeafOp(o) == o \in {"dx", "c", "x", "u", "z", "p", "v", "q", "t", "T", "t0", "tf", "DT", "DTc", "int"}
 IsBinOp(o)  == o \in {"add", "sub", "mul"}
 IsUnOp(o)   == o \in {"neg", "sq", "at_t0", "at_tf", "sum", "sump", "intc", "off"}
 
